@@ -129,7 +129,7 @@ theorem pwp_userPanic (c : Resp → Prog ε α) (Q : α → PG → Prop) (E : ε
   subst this
   exact h _ ⟨Nat.le_succ _, fun _ h => h⟩ (Nat.succ_pos _)
 
-theorem debugLeaf_poison (x : LockId) (m : Mode) (b : Bool) (g : PG) :
+theorem debugLeaf_poison (x : LockId) (m : Mode) (b : Nat) (g : PG) :
     wp PoisonSpec (debugLeaf x m b) (Grew g) (GrewP (ε := Unit) g) g := by
   unfold debugLeaf
   apply pwp_ign _ _ _ _ _ (by trivial)
@@ -151,8 +151,20 @@ theorem debugLeaf_poison (x : LockId) (m : Mode) (b : Bool) (g : PG) :
       intro r3 g3 _ hle3 hp3
       cases r3 with
       | panic => exact ⟨(hle.trans hle2).trans hle3, hp3 rfl⟩
-      | ok => exact (hle.trans hle2).trans hle3
-      | no => exact (hle.trans hle2).trans hle3
+      | ok =>
+        dsimp only
+        split
+        · apply pwp_userPanic
+          intro g4 hle4 hp4
+          exact ⟨((hle.trans hle2).trans hle3).trans hle4, hp4⟩
+        · exact (hle.trans hle2).trans hle3
+      | no =>
+        dsimp only
+        split
+        · apply pwp_userPanic
+          intro g4 hle4 hp4
+          exact ⟨((hle.trans hle2).trans hle3).trans hle4, hp4⟩
+        · exact (hle.trans hle2).trans hle3
   | no => exact hle
   | panic => exact ⟨hle, hp rfl⟩
 
